@@ -51,6 +51,18 @@ CHECKS = {
         "descriptor contracts (C16), list builders checked for 0/1/2 alarms + frame (comprehension rule), local time zone unset in the "
         "deductive part; start/end anchors come from Event/Todo.start/end (C16).",
    technique="contract-based deductive verification: AST->z3 VCs (pyvc) with segment sequences and a uniform-body loop rule; modular callee contracts; bounded stand-in"),
+ "C07": dict(
+   category="proof", design_ref="DESIGN.md section 4 and section 8 C07", engine="fstc",
+   text="escape_char, unescape_char, escape_string, unescape_string, vText.to_ical/from_ical and vCategory.to_ical/from_ical are extracted "
+        "from the real source as finite-state transducers on every run; the round trips (codec, property value path, list codec, list "
+        "through the property path) are decided equal to the documented normalisation for ALL strings of every length by a product "
+        "construction, outside the regular classes of the listed known findings (inside which a witness is replayed on every run); the "
+        "output shape of escape_char (no LF, no unescaped ; or ,) is a regular inclusion. A shortest counterexample is replayed on the "
+        "real functions. Real objects end to end over the critical alphabet are a labelled bounded stand-in.",
+   note="Trusted: the fstc decision procedure (self-tested against CPython; extracted transducers compared with the real functions on all "
+        "strings up to length 3/4 each run), the alphabet abstraction, UTF-8 encode/decode as identity at text level, the value-path "
+        "composition lemma (C05/C06). Known findings C07-F1..F6 are genuine defects recorded in known_findings.json.",
+   technique="contract-based deductive verification: strongest postconditions as rational transducers extracted from the source, equivalence/inclusion decided by fstc; bounded stand-in"),
 }
 NA_REASON = "check not built yet (build round in progress; DESIGN.md section 8 describes the planned contracts)"
 
@@ -62,7 +74,7 @@ def main():
                    "source_commits": [], "add_only": True},
          "engines": [
              {"name": "pyvc", "path": "vc/pyvc", "serves_properties": sorted(CHECKS), "kind_free_text": "symbolic executor over the real functions' AST producing verification conditions, discharged by z3 5.1.0 (cvc5 for z3 unknowns)"},
-             {"name": "fstc", "path": "vc/fstc", "serves_properties": [], "kind_free_text": "decision procedure for rational string functions (functional transducers): equivalence, image inclusion, shortest counterexamples"},
+             {"name": "fstc", "path": "vc/fstc", "serves_properties": ["C07"], "kind_free_text": "decision procedure for rational string functions (functional transducers): equivalence, image inclusion, shortest counterexamples"},
              {"name": "fin", "path": "vc/fin", "serves_properties": sorted(CHECKS), "kind_free_text": "exhaustive evaluation over finite domains; cross-checks of assumed contracts against CPython"},
          ],
          "checks": [], "notes": "see DESIGN.md; known findings in known_findings.json", "not_applicable": []}
